@@ -115,6 +115,15 @@ def check(run):
     srch = [c for c in cx.calls_in(f2, 'search_in_struct_unions')]
     ok = len(srch) == 1 and [cx.render(a) for a in cx.call_args(srch[0])][:2] == ['&ffi1->types_builder.ctx', 's->name']
     run.ob('X3/lookup-is-by-declared-name', fn2, 'search_in_struct_unions(&ffi1->types_builder.ctx, s->name, strlen(s->name))', ok, tu.where(f2))
+    # every included ffi is visited: not finding the name in one of them moves on to the next one
+    miss = g2.edges_of(lambda cn, l: (cx.render(cn.ast).replace(' ', ''), l) in (('sindex<0', 'T'), ('sindex>=0', 'F')))
+    latch = [n.id for n in g2.nodes if n.ast is not None and n.kind == 'stmt' and stmt_text(n.ast).replace(' ', '') in ('i++', '++i', 'i+=1')]
+    okv = bool(miss) and bool(latch)
+    if okv:
+        after = g2.reach([e[1] for e in miss], avoid=set(latch))
+        okv = not any(g2.nodes[i].kind == 'return' for i in after)
+    run.ob('X3/search-visits-every-included-ffi', fn2, 'if (sindex < 0) continue;', okv, tu.where(f2),
+           'a name missing from one included ffi ends the search: structs that live in a later include are reported as "not found"')
     # X4
     fn3 = 'lib_build_and_cache_attr'
     g3 = cfg_of(tu, fn3)
@@ -125,6 +134,11 @@ def check(run):
         n = g3.node_of(rec[0])
         okr = 'T:index < 0' in g3.fact_texts(n.id) and 'T:types_builder->included_libs != 0' in g3.fact_texts(n.id)
     run.ob('X4/lib-lookup-falls-back-to-included-libs', fn3, 'if (index < 0 && included_libs) lib_build_and_cache_attr(lib1, name, recursion + 1)', okr, tu.where(f3))
+    if rec:
+        fcts = g3.fact_texts(g3.node_of(rec[0]).id)
+        deep = not any(t.replace(' ', '') in ('F:recursion>0', 'T:recursion==0', 'T:recursion<=0') for t in fcts)
+        run.ob('X4/included-libs-search-their-own-includes', fn3, 'the fall-back is also taken when recursion > 0', deep, tu.where(rec[0]),
+               'the search of the included libs is only reached with recursion == 0: a lib consulted on behalf of an including lib no longer looks into its own includes (chains of three modules)')
     fic = [c for c in cx.calls_in(f3, 'ffi_fetch_int_constant')]
     run.ob('X4/lib-lookup-falls-back-to-included-ffi-constants', fn3, 'ffi_fetch_int_constant(ffi1, s, recursion + 1)', len(fic) >= 1 and
            [cx.render(a) for a in cx.call_args(fic[0])] == ['ffi1', 's', 'recursion + 1'], tu.where(f3))
